@@ -29,6 +29,7 @@ import ast
 from ..dataflow import is_shared
 from ..repo import AnalysisError, FuncInfo, dotted, own_nodes
 from ..sublist import SubInterp, apps, is_sub
+from .common import ctor_self_write
 
 MANIFEST = {
     "text": (
@@ -83,6 +84,15 @@ def registry(ctx, factory: FuncInfo, enum_name: str):
             isinstance(k, ast.Attribute) and isinstance(k.value, ast.Name) and k.value.id == enum_name for k in val.keys
         ):
             return val, {k.attr: v for k, v in zip(val.keys, val.values)}
+    # a private function of the module that returns the table
+    for fn in factory.module.functions.values():
+        if isinstance(fn.node, ast.Lambda) or fn.name not in used:
+            continue
+        for n in own_nodes(fn.node):
+            if isinstance(n, ast.Return) and isinstance(n.value, ast.Dict) and n.value.keys and all(
+                isinstance(k, ast.Attribute) and isinstance(k.value, ast.Name) and k.value.id == enum_name for k in n.value.keys
+            ):
+                return n.value, {k.attr: v for k, v in zip(n.value.keys, n.value.values)}
     raise AnalysisError(f"{factory.qualname}: registry keyed by {enum_name} not found")
 
 
@@ -172,6 +182,8 @@ def run(ctx):
         closure = eff.closure(fi, None, max_depth=5)
         flagged = False
         for w in ws:
+            if ctor_self_write(w):
+                continue  # a private helper object initialising itself
             shared = [o for o in w.origins if is_shared(o) and o[0] != "unknown"]
             if not shared:
                 continue
@@ -258,6 +270,34 @@ def run(ctx):
                 loc=inner.loc(n),
             )
 
+    # the fold written with functools.reduce:
+    #   reduce(lambda acc, f: f(dispatcher, acc), <filter list>, operations)
+    rets = [n for n in own_nodes(inner.node) if isinstance(n, ast.Return) and n.value is not None]
+    if len(rets) == 1:
+        rv = ctx.norm.xexpr(inner, rets[0].value)
+        if (
+            isinstance(rv, ast.Call) and ast.unparse(rv.func).split(".")[-1] == "reduce" and len(rv.args) == 3
+            and isinstance(rv.args[0], ast.Lambda) and len(rv.args[0].args.args) == 2
+        ):
+            lam, seq, init = rv.args
+            acc, fvar = (a.arg for a in lam.args.args)
+            body = lam.body
+            good = (
+                isinstance(body, ast.Call) and isinstance(body.func, ast.Name) and body.func.id == fvar and len(body.args) == 2
+                and ast.unparse(body.args[0]) == ip[0] and ast.unparse(body.args[1]) == acc
+                and isinstance(seq, ast.Name) and seq.id == flist_name and ast.unparse(init) == ip[1]
+            )
+            if good:
+                chk.ok("R07.b", inner.qualname, inner.loc(), f"left fold (functools.reduce) over `{flist_name}` starting from the given list")
+                chk.floor("R07.b", 2, 2, "composite paths")
+            else:
+                chk.violation(
+                    "R07.b", inner, rv,
+                    f"the composite folds with `{ast.unparse(rv)[:90]}`: not `f(dispatcher, previous output)` over the whole filter "
+                    "list starting from the given operations",
+                    loc=inner.loc(rets[0]),
+                )
+            return _after_composite(ctx, repo, chk)
     it = SubInterp(ctx, inner, {ip[1]: ("SRC", 0)}, filter_call=filter_call)
     res = it.run()
     bad = False
@@ -286,6 +326,10 @@ def run(ctx):
         chk.ok("R07.b", inner.qualname, inner.loc(), f"{len(res)} paths: fold over `{flist_name}`")
     chk.floor("R07.b", len(res), 2, "composite paths")
 
+    _after_composite(ctx, repo, chk)
+
+
+def _after_composite(ctx, repo, chk):
     # ---------------------------------------------------------------- R07.d
     disp = repo.find_class("Dispatcher")
     avail = repo.need_method(disp, "available_operations")
